@@ -55,7 +55,31 @@ def k_self(ctx, seqs, k):
         S.expect_triplets(ctx, out, expected, "symdel", "self-explicit-defaults")
 
 
-KINDS = {"self": k_self}
+def k_big(ctx, n, np_seed, plant):
+    """very large collections at max_edits=1 (size-dependent paths); oracle: wildcard/deletion hashing confirmed by the DP"""
+    import pyrepseq
+    rng = random.Random(np_seed)
+    seqs = ["C" + "".join(rng.choice(G.AA) for _ in range(13)) for _ in range(n)]
+    for t in range(plant):                       # planted neighbours far apart in the list, incl. at positions beyond 2^16
+        i, j = rng.randrange(n), n - 1 - rng.randrange(min(n, 300))
+        seqs[j] = G.mutate(rng, seqs[i], G.AA, t % 2)
+    if n > 65536 + 400:
+        # clonal families whose members sit at low positions and just beyond 2^16 (and at the very end): mutual neighbours
+        for f in range(0, 300, 3):
+            base = seqs[f]
+            pos = 1 + f % 12
+            letters = [c for c in G.AA if c != base[pos]]
+            for m, where in enumerate((f + 1, f + 2, 65536 + f + 2, n - 1 - f)):
+                seqs[where] = base[:pos] + letters[m] + base[pos + 1:]
+    expected = O.neigh_self_k1_big(seqs)
+    ctx.count("big_inputs")
+    ctx.nontriv(["big", n, np_seed, plant])
+    ctx.sample("big", {"n": n, "planted": plant, "neighbour_triplets": sum(expected.values())})
+    out = ctx.call(pyrepseq.nearest_neighbor, seqs, max_edits=1)
+    S.expect_triplets(ctx, out, expected, "nearest_neighbor", f"self-large-input")
+
+
+KINDS = {"self": k_self, "big": k_big}
 
 
 def generate(tier, seed):
@@ -86,6 +110,10 @@ def generate(tier, seed):
         for i, a in enumerate(u3):
             for b in u3[i:]:
                 yield "self", {"seqs": [a, b], "k": 1 + (len(a) + len(b)) % 4}, True
+    yield "big", {"n": 4000, "np_seed": seed + 1, "plant": 300}, True
+    if thorough:
+        yield "big", {"n": 66000, "np_seed": seed + 2, "plant": 3000}, True
+        yield "big", {"n": 20000, "np_seed": seed + 3, "plant": 2000}, True
     # ---- random multisets from small universes (duplicates, shuffles)
     pools = [G.universe("AC", 6), G.universe("ACD", 4), G.universe("ACDW", 3), G.universe("A", 8),
              G.universe("AC", 5) + hostile, G.NON_AMINO + G.universe("ab", 3)]
